@@ -22,16 +22,31 @@ fn single(plan: Plan, universe: u8, tier: Tier) -> Box<dyn Config> {
 
 fn pairs(pa: Plan, ua: u8, pb: Plan, ub: u8, alt: bool, tier: Tier) -> Box<dyn Config> {
     // no symmetry reduction here: which ids two sets share is exactly what the algebra depends on
-    let mut ca = SetCfg::new(pa, ua);
+    let w = super::width();
+    let (big, gw, fill): (u8, u8, u8) = if w == 16 { (30, 16, 28) } else { (16, 8, 14) };
+    let mut ca = SetCfg::new(pa, big);
+    ca.ops_universe = Some(ua);
     ca.reduce = false;
     ca.full_alphabet = false;
     ca.max_buckets = 32;
-    let mut cb = SetCfg::new(pb, ub);
+    let mut cb = SetCfg::new(pb, big);
+    cb.ops_universe = Some(ub);
     cb.reduce = false;
     cb.full_alphabet = false;
     cb.max_buckets = 32;
     cb.alt_hasher = alt;
-    let label = format!("pairs-{}-x-{}{}", ca.label(), cb.label(), if alt { "-althasher" } else { "" });
+    let label = format!("pairs-{}-ops{}-x-{}-ops{}{}", ca.label(), ua, cb.label(), ub, if alt { "-althasher" } else { "" });
+    // full-window, full-load and tombstone-saturated sets take part in every pair
+    let ins = |n: u8| (0..n).map(SetOp::Insert).collect::<Vec<_>>();
+    let mut extra = vec![ins(gw + 1), ins(fill)];
+    for removed in [gw / 2, fill / 2, fill - 3] {
+        let mut h = ins(fill);
+        h.extend((0..removed).map(SetOp::Remove));
+        extra.push(h);
+    }
+    let mut h = ins(fill);
+    h.extend((0..fill).filter(|i| i % 2 == 1).map(SetOp::Remove));
+    extra.push(h);
     Box::new(SetPairs {
         label,
         ha: SetHarness::new(ca),
@@ -39,6 +54,7 @@ fn pairs(pa: Plan, ua: u8, pb: Plan, ub: u8, alt: bool, tier: Tier) -> Box<dyn C
         limits: lim(tier),
         max_states: if tier == Tier::Quick { 1500 } else { 20000 },
         wall_cap: if tier == Tier::Quick { 40.0 } else { 1200.0 },
+        extra,
     })
 }
 
